@@ -27,6 +27,7 @@ from accelforge.mapper.FFM._pareto_df.df_convention import (
     initial2col,
     iterations2col,
 )
+from accelforge.util import _verif
 from accelforge.mapper.FFM._pareto_df.pareto import makepareto_numpy
 from accelforge.model._looptree.reuse.symbolic import PRINT_FORMULAS
 from accelforge.frontend.mapper.metrics import Metrics
@@ -2507,6 +2508,19 @@ def _make_tile_shapes(job: "Job"):
         e.add_note("Compilation failed")
         raise
 
+    if _verif.enabled():
+        _verif.record(
+            "tile_shape_formulas",
+            dict(
+                job=job,
+                symbols=symbols,
+                compiled_df=compiled_df,
+                compiled_per_memory_usage_df=compiled_per_memory_usage_df,
+                compiled_usage_df=compiled_usage_df,
+                choices_enumerated=choices_enumerated,
+            ),
+        )
+
     choices_float = choices_enumerated.astype(util.NUMPY_FLOAT_TYPE)
     # choices_float = np.tile(choices_float, (1000000, 1))
     # choices_enumerated = np.tile(choices_enumerated, (1000000, 1))
@@ -2573,6 +2587,8 @@ def _make_tile_shapes(job: "Job"):
     job.n_valid_pmappings = job.n_total_pmappings * prod(
         job.pmapping_keep_rates.values()
     )
+    if _verif.enabled():
+        _verif.record("tile_shape_table", dict(job=job, df=df))
     return df, tensor2mapping
 
 
